@@ -807,8 +807,30 @@ def gen_loops(seed: int) -> str:
         lines.append(f"Signal after = {x} + 1;")
         return "\n".join(lines) + "\n"
     if body_kind < 0.40:
-        mid = (sorted(vals)[len(vals) // 2] if vals else 0) if form < 0.25 else (a + b) // 2
-        return "\n".join(lines + _loop_scope_body(rng, head, names, mid)) + "\n"
+        # scope / value-position bodies need at least two distinct iterations to show anything: their own head
+        # (zero-iteration and single-iteration loops are covered by the other bodies)
+        a2 = rng.randint(-5, 4)
+        n2 = rng.randint(2, 4)
+        hk = rng.random()
+        if hk < 0.3:
+            vs = rng.sample(range(-5, 9), n2)
+            head2, its = f"for i in [{', '.join(map(str, vs))}]", vs
+        elif hk < 0.55:
+            head2, its = f"for i in {a2}..{a2 + n2}", list(range(a2, a2 + n2))
+        elif hk < 0.75:
+            head2, its = f"for i in {a2}..{a2 + 2 * n2} step 2", list(range(a2, a2 + 2 * n2, 2))
+        elif hk < 0.9:
+            head2, its = f"for i in {a2 + n2}..{a2} step -1", list(range(a2 + n2, a2, -1))
+        else:
+            lines.append(f"int lo = {a2};")
+            lines.append(f"int hi = {a2 + n2};")
+            head2, its = "for i in lo..hi", list(range(a2, a2 + n2))
+        if form < 0.45 and hk >= 0.9:
+            lines[:] = [l for l in lines if not (l.startswith("int lo = ") or l.startswith("int hi = "))] + [f"int lo = {a2};", f"int hi = {a2 + n2};"]
+        elif form >= 0.25 and form < 0.45:
+            lines[:] = [l for l in lines if not (l.startswith("int lo = ") or l.startswith("int hi = "))]
+        mid = sorted(its)[(len(its) - 1) // 2]
+        return "\n".join(lines + _loop_scope_body(rng, head2, names, mid)) + "\n"
     if body_kind < 0.47:
         lines.append("func scaled(Signal s, int k) {")
         lines.append("    return s * k;")
